@@ -59,7 +59,7 @@ def _ro_edge_filter(fa: FA):
         return None
     asm = Assume(fa, atom)
     tests = [n.id for n in fa.cfg.nodes if n.kind == "test" and asm.truth(n.ast, n.id) is not None]
-    return asm.edge_ok, tests
+    return asm.edge_ok, tests, asm
 
 
 def check_guard(ck):
@@ -85,12 +85,13 @@ def check_guard(ck):
             effs = persistent_effect_nodes(ck, fa)
             if name in QUERY_METHODS:
                 continue  # decided by R2 (must have no effect at all)
-            edge_ok, tests = _ro_edge_filter(fa)
+            edge_ok, tests, asm = _ro_edge_filter(fa)
             live = fa.cfg.reach([fa.cfg.entry], edge_ok=edge_ok)
             bad = []
             for (node, desc) in effs:
                 for i in fa.nodes(node):
-                    if i in live:
+                    # reachable, and not in an arm of a conditional expression / behind an `and` / `or` that the flag excludes
+                    if i in live and (isinstance(node, ast.stmt) or asm.evaluated(node, i) is not False):
                         bad.append((node, desc))
                         break
             if effs:
